@@ -199,6 +199,11 @@ func (h *Handle) HavocInt(base ssa.Value, path, name string) Lin {
 	return tvar(t)
 }
 
+// SetIntCell stores a constant in an integer cell (ghost state of a rule).
+func (h *Handle) SetIntCell(base ssa.Value, path string, k int64) {
+	h.S.cells[cellKey{h.Ctx, base, path}] = AInt{konst(k)}
+}
+
 // IntCell returns the current content of an integer cell, if it exists.
 func (h *Handle) IntCell(base ssa.Value, path string) (Lin, bool) {
 	cv, ok := h.S.cells[cellKey{h.Ctx, base, path}]
